@@ -168,6 +168,13 @@ impl Searcher {
         state_history.increment(game_state_hash);
 
         for depth in 0..max_depth {
+            // The workers only poll the token every 10000 nodes, which an iteration over a
+            // small tree never reaches: honour a stop request between iterations as well
+            // (the first iteration always runs so that there is a move to report)
+            if depth > 0 && token.is_cancelled() {
+                break;
+            }
+
             #[cfg(weechess_verif)]
             verif::iter_start(depth, max_thread_count.unwrap_or(if depth < 3 { 1 } else { usize::MAX }));
 
